@@ -253,6 +253,10 @@ class SymBool:
             can_t = rt != z3.unsat
             can_f = rf != z3.unsat
             if can_t and can_f:
+                if c.__dict__.get("finished"):
+                    # the path's exploration is over (obligation generation re-entered its context): a fork here would
+                    # silently restrict the obligations to one branch and never visit the other
+                    raise ForkInPost("path fork during obligation generation on: %s" % str(t)[:120])
                 d = True
                 c.pending.append(c.decisions + [False])
             elif can_t:
@@ -647,6 +651,21 @@ def sym_mod(a, b):
     return Sym(_divmod(a, b)[1])
 
 
+_SQRT_F = z3.Function("sqrt", z3.RealSort(), z3.RealSort())
+
+
+class functional_witnesses:
+    """context manager: sqrt witnesses are applications of an uninterpreted function (see sym_sqrt)"""
+
+    def __enter__(self):
+        c = cur()
+        c.__dict__["fn_witness"] = c.__dict__.get("fn_witness", 0) + 1
+
+    def __exit__(self, *a):
+        cur().__dict__["fn_witness"] -= 1
+        return False
+
+
 def sym_sqrt(x):
     if not is_sym(x):
         import math
@@ -671,6 +690,13 @@ def sym_sqrt(x):
     if key in memo:
         return memo[key][0]
     side_obligation("def:sqrt-nonneg", t >= 0)
+    if cur().__dict__.get("fn_witness"):
+        # functional form: sqrt as an uninterpreted function with its defining axiom instantiated at this argument.
+        # Unlike a skolem constant it stays correct when a summation variable inside the argument is later substituted.
+        r = _SQRT_F(ct)
+        define(z3.Implies(ct >= 0, z3.And(r >= 0, r * r == ct)))
+        memo[key] = (Sym(r), ct)
+        return Sym(r)
     s = _witness("sqrt", False, lambda v: z3.And(v >= 0, v * v == t))
     memo[key] = (Sym(s), ct)
     return Sym(s)
@@ -809,11 +835,16 @@ class PathResult:
         return self.pc + self.defs
 
 
-def explore(fn, max_paths=512, catch=(Exception,)):
+class ForkInPost(Unsupported):
+    pass
+
+
+def explore(fn, max_paths=512, catch=(Exception,), prefixes=None, post=None):
     """Run fn() (which builds its own fresh symbolic inputs) along every feasible decision path.
-    fn may call post-processing inside; returns list of PathResult."""
+    returns list of PathResult.  post (optional) is called with each PathResult INSIDE the path, so decisions it takes
+    are explored like the function's own (its return value is stored as .post_value)."""
     results = []
-    stack = [[]]
+    stack = [list(p) for p in prefixes] if prefixes is not None else [[]]
     n = 0
     while stack:
         prefix = stack.pop()
@@ -821,22 +852,31 @@ def explore(fn, max_paths=512, catch=(Exception,)):
         old = _CUR[0]
         _CUR[0] = ctx
         try:
+            r = None
             try:
-                v = fn()
-                results.append(PathResult(ctx, "return", v))
+                try:
+                    v = fn()
+                    r = PathResult(ctx, "return", v)
+                except PathAbort:
+                    raise
+                except Unsupported:
+                    raise
+                except BaseException as e:
+                    if isinstance(e, (KeyboardInterrupt, SystemExit, GeneratorExit)):
+                        raise
+                    if type(e).__name__ == "NonLinear" or _is_code_exception(e):
+                        r = PathResult(ctx, "raise", e)
+                    else:
+                        raise Unsupported("engine error: %s: %s" % (type(e).__name__, e)) from e
+                r.fn = fn
+                if post is not None:
+                    r.post_value = post(r)
+                results.append(r)
             except PathAbort:
                 pass
-            except Unsupported:
-                raise
-            except BaseException as e:
-                if isinstance(e, (KeyboardInterrupt, SystemExit, GeneratorExit)):
-                    raise
-                if type(e).__name__ == "NonLinear" or _is_code_exception(e):
-                    results.append(PathResult(ctx, "raise", e))
-                else:
-                    raise Unsupported("engine error: %s: %s" % (type(e).__name__, e)) from e
         finally:
             _CUR[0] = old
+            ctx.__dict__["finished"] = True
         stack.extend(ctx.pending)
         n += 1
         if n > max_paths:
